@@ -171,10 +171,21 @@ theorem firstChildListErr_none_iff {t : RawTree} :
     subst he
     exact h pl cl hm p cs' hp
 
+theorem topLevelEmpty_false_iff {t : RawTree} :
+    t.topLevelEmpty = false ↔ ∃ l0, t.hierarchy.head? = some l0 ∧ t.nodesAt l0 ≠ [] := by
+  unfold topLevelEmpty nodesAt
+  cases h : t.hierarchy.head? with
+  | none => simp
+  | some l0 =>
+    cases hl : t.level l0 with
+    | nil => simp
+    | cons a m => simp
+
 /-- what `validateWith true` tests, one conjunct per `if` -/
 theorem validate_ok_iff_checks {t : RawTree} :
     t.validate = .ok () ↔
-      t.hasHierarchy = true ∧ t.keysMatch = true ∧ t.nodesAreStr = true ∧
+      t.hasHierarchy = true ∧ hasDup t.hierarchy = false ∧ t.keysMatch = true ∧
+      t.nodesAreStr = true ∧ t.topLevelEmpty = false ∧
       (∃ acc, checkLevelPairs t (levelPairs t.hierarchy) [] = .ok acc) ∧
       t.firstChildListErr = none ∧ t.hierarchy ≠ [] ∧ hasDup t.allRows = false := by
   have hl : t.leafLevel = none ↔ t.hierarchy = [] := by simp [leafLevel]
@@ -182,18 +193,20 @@ theorem validate_ok_iff_checks {t : RawTree} :
   cases hll : t.leafLevel with
   | none =>
     have := hl.1 hll
-    cases t.hasHierarchy <;> cases t.keysMatch <;> cases t.nodesAreStr <;>
+    cases t.hasHierarchy <;> cases hasDup t.hierarchy <;> cases t.keysMatch <;>
+      cases t.nodesAreStr <;> cases t.topLevelEmpty <;>
       cases checkLevelPairs t (levelPairs t.hierarchy) [] <;>
       cases t.firstChildListErr <;> simp [this]
   | some l =>
     have : t.hierarchy ≠ [] := fun h => by rw [hl.2 h] at hll; cases hll
-    cases t.hasHierarchy <;> cases t.keysMatch <;> cases t.nodesAreStr <;>
+    cases t.hasHierarchy <;> cases hasDup t.hierarchy <;> cases t.keysMatch <;>
+      cases t.nodesAreStr <;> cases t.topLevelEmpty <;>
       cases checkLevelPairs t (levelPairs t.hierarchy) [] <;>
       cases t.firstChildListErr <;> cases hasDup t.allRows <;> simp [this]
 
 /-- soundness: everything the validator accepts is a strict tree -/
 theorem strict_of_validate {t : RawTree} (h : t.validate = .ok ()) : Strict t := by
-  obtain ⟨hh, hk, hs, ⟨acc, hc⟩, hr, _, hd⟩ := validate_ok_iff_checks.1 h
+  obtain ⟨hh, _, hk, hs, _, ⟨acc, hc⟩, hr, _, hd⟩ := validate_ok_iff_checks.1 h
   have hk := keysMatch_iff.1 hk
   have hp := checkLevelPairs_sound _ _ _ hc
   exact
@@ -211,7 +224,41 @@ theorem strict_of_validate {t : RawTree} (h : t.validate = .ok ()) : Strict t :=
 /-- an accepted tree has at least one level (`hierarchy[-1]` is evaluated) -/
 theorem hierarchy_ne_nil_of_validate {t : RawTree} (h : t.validate = .ok ()) :
     t.hierarchy ≠ [] :=
-  (validate_ok_iff_checks.1 h).2.2.2.2.2.1
+  (validate_ok_iff_checks.1 h).2.2.2.2.2.2.2.1
+
+/-- an accepted tree lists no level twice (`fix:` 799c7a6): `hierarchy.Nodup` is
+a consequence of acceptance -/
+theorem hierarchy_nodup_of_validate {t : RawTree} (h : t.validate = .ok ()) :
+    t.hierarchy.Nodup :=
+  (hasDup_false_iff_nodup _).1 (validate_ok_iff_checks.1 h).2.1
+
+/-- an accepted tree has a node at its top level (`fix:` 6649211).  The
+conclusion is literally `Bridge.HasNode t`. -/
+theorem hasNode_of_validate {t : RawTree} (h : t.validate = .ok ()) :
+    ∀ l0, t.hierarchy.head? = some l0 → t.nodesAt l0 ≠ [] := by
+  obtain ⟨l0, h0, hne⟩ := topLevelEmpty_false_iff.1 (validate_ok_iff_checks.1 h).2.2.2.2.1
+  intro l hl
+  rw [h0] at hl
+  cases hl
+  exact hne
+
+theorem exists_top_node_of_validate {t : RawTree} (h : t.validate = .ok ()) :
+    ∃ l0 n, t.hierarchy.head? = some l0 ∧ n ∈ t.nodesAt l0 := by
+  obtain ⟨l0, h0, hne⟩ := topLevelEmpty_false_iff.1 (validate_ok_iff_checks.1 h).2.2.2.2.1
+  cases hn : t.nodesAt l0 with
+  | nil => exact absurd hn hne
+  | cons n ns => exact ⟨l0, n, h0, by rw [hn]; exact List.mem_cons_self⟩
+
+theorem rejects_dup_level {t : RawTree} (h : ¬ t.hierarchy.Nodup) : ∃ e, t.validate = .error e := by
+  cases hv : t.validate with
+  | error e => exact ⟨e, rfl⟩
+  | ok u => cases u; exact absurd (hierarchy_nodup_of_validate hv) h
+
+theorem rejects_no_nodes {t : RawTree} {l0 : Level} (h0 : t.hierarchy.head? = some l0)
+    (h : t.nodesAt l0 = []) : ∃ e, t.validate = .error e := by
+  cases hv : t.validate with
+  | error e => exact ⟨e, rfl⟩
+  | ok u => cases u; exact absurd h (hasNode_of_validate hv l0 h0)
 
 theorem rejects_empty_hierarchy {t : RawTree} (h : t.hierarchy = []) :
     ∃ e, t.validate = .error e := by
@@ -229,27 +276,38 @@ theorem rejects_no_hierarchy {t : RawTree} (h : t.hasHierarchy = false) :
     t.validate = .error .noHierarchy := by
   simp [validate, validateWith, h]
 
-theorem rejects_bad_keys {t : RawTree} (hh : t.hasHierarchy = true) (hk : t.keysMatch = false) :
-    t.validate = .error .badKeys := by
-  simp [validate, validateWith, hh, hk]
+theorem rejects_bad_keys {t : RawTree} (hh : t.hasHierarchy = true) (hn : t.hierarchy.Nodup)
+    (hk : t.keysMatch = false) : t.validate = .error .badKeys := by
+  simp [validate, validateWith, hh, hk, (hasDup_false_iff_nodup _).2 hn]
 
-theorem rejects_stray_key {t : RawTree} (hh : t.hasHierarchy = true) {k : Level}
+theorem rejects_stray_key {t : RawTree} (hh : t.hasHierarchy = true) (hn : t.hierarchy.Nodup)
+    {k : Level}
     (hk : k ∈ t.levels.map (·.1)) (hnot : k ∉ t.hierarchy) : t.validate = .error .badKeys := by
-  apply rejects_bad_keys hh
+  apply rejects_bad_keys hh hn
   cases hkm : t.keysMatch with
   | false => rfl
   | true => exact absurd ((keysMatch_iff.1 hkm).1 k hk) hnot
 
-theorem rejects_ghost_level {t : RawTree} (hh : t.hasHierarchy = true) {k : Level}
+theorem rejects_ghost_level {t : RawTree} (hh : t.hasHierarchy = true) (hn : t.hierarchy.Nodup)
+    {k : Level}
     (hk : k ∈ t.hierarchy) (hnot : k ∉ t.levels.map (·.1)) : t.validate = .error .badKeys := by
-  apply rejects_bad_keys hh
+  apply rejects_bad_keys hh hn
   cases hkm : t.keysMatch with
   | false => rfl
   | true => exact absurd ((keysMatch_iff.1 hkm).2 k hk) hnot
 
-theorem rejects_non_str_node {t : RawTree} (hh : t.hasHierarchy = true) (hk : t.keysMatch = true)
+theorem rejects_non_str_node {t : RawTree} (hh : t.hasHierarchy = true) (hn : t.hierarchy.Nodup)
+    (hk : t.keysMatch = true)
     (h : t.nodesAreStr = false) : t.validate = .error .nonStrNode := by
-  simp [validate, validateWith, hh, hk, h]
+  simp [validate, validateWith, hh, hk, h, (hasDup_false_iff_nodup _).2 hn]
+
+theorem rejects_dup_level_exact {t : RawTree} (hh : t.hasHierarchy = true)
+    (h : ¬ t.hierarchy.Nodup) : t.validate = .error .dupLevel := by
+  have : hasDup t.hierarchy = true := by
+    cases hd : hasDup t.hierarchy with
+    | true => rfl
+    | false => exact absurd ((hasDup_false_iff_nodup _).1 hd) h
+  simp [validate, validateWith, hh, this]
 
 /-! ### completeness -/
 
@@ -386,9 +444,16 @@ theorem checkLevelPairs_complete {t : RawTree} :
 
 /-- completeness: every strict tree over a hierarchy of distinct level names is accepted -/
 theorem validate_of_strict {t : RawTree} (hn : t.hierarchy.Nodup) (hne : t.hierarchy ≠ [])
+    (hnode : ∀ l0, t.hierarchy.head? = some l0 → t.nodesAt l0 ≠ [])
     (h : Strict t) : t.validate = .ok () := by
   apply validate_ok_iff_checks.2
-  refine ⟨h.hasH, keysMatch_iff.2 ⟨h.keysSub, h.hierSub⟩, h.str, ?_,
+  have htop : t.topLevelEmpty = false := by
+    apply topLevelEmpty_false_iff.2
+    cases h0 : t.hierarchy.head? with
+    | none => exact absurd (List.head?_eq_none_iff.1 h0) hne
+    | some l0 => exact ⟨l0, rfl, hnode l0 h0⟩
+  refine ⟨h.hasH, (hasDup_false_iff_nodup _).2 hn, keysMatch_iff.2 ⟨h.keysSub, h.hierSub⟩,
+    h.str, htop, ?_,
     firstChildListErr_none_iff.2 (fun pl cl hm p cs hp =>
       ⟨h.childNe pl cl hm p cs hp, h.childNodup pl cl hm p cs hp⟩),
     hne, (hasDup_false_iff_nodup _).2 h.rowsNodup⟩
@@ -396,10 +461,18 @@ theorem validate_of_strict {t : RawTree} (hn : t.hierarchy.Nodup) (hne : t.hiera
     (fun pl cl hm => ⟨h.childExists pl cl hm, h.hasParent pl cl hm, h.oneParent pl cl hm⟩)
     (by intro k v hlk; simp [List.lookup] at hlk)
 
-theorem validate_ok_iff {t : RawTree} (hn : t.hierarchy.Nodup) :
-    t.validate = .ok () ↔ Strict t ∧ t.hierarchy ≠ [] :=
-  ⟨fun h => ⟨strict_of_validate h, hierarchy_ne_nil_of_validate h⟩,
-   fun h => validate_of_strict hn h.2 h.1⟩
+/-- the validator decides exactly: strict tree, distinct level names, a
+non-empty hierarchy and a node at the top level -/
+theorem validate_ok_iff {t : RawTree} :
+    t.validate = .ok () ↔ Strict t ∧ t.hierarchy.Nodup ∧ t.hierarchy ≠ [] ∧
+      ∀ l0, t.hierarchy.head? = some l0 → t.nodesAt l0 ≠ [] :=
+  ⟨fun h => ⟨strict_of_validate h, hierarchy_nodup_of_validate h,
+      hierarchy_ne_nil_of_validate h, hasNode_of_validate h⟩,
+   fun h => validate_of_strict h.2.1 h.2.2.1 h.2.2.2 h.1⟩
+
+/-- acceptance + Python dict-key uniqueness is all of `WF` -/
+theorem WF.of_validate {t : RawTree} (hv : t.validate = .ok ()) (d : DictOK t) : WF t :=
+  ⟨hv, hierarchy_nodup_of_validate hv, hierarchy_ne_nil_of_validate hv, d⟩
 
 /-! ### one corollary per remaining corruption class (existence of an error) -/
 
